@@ -125,6 +125,29 @@ def shape_modules(rng, tier):
              "exports": [{"name": "e%d" % k, "kind": "func", "idx": k} for k in range(cnt)] + [{"name": "g%d" % k, "kind": "global", "idx": k} for k in range(cnt)],
              "datacount": True}
         mods.append(("counts-%d" % cnt, m))
+    # limits: a table's limits count entries (any u32), a memory's count pages (up to 65536); defined and imported, with and without maximum
+    U32M = 0x7FFFFFFF          # (the largest number the model's integers hold)
+    for tag_, tab_, mem_, imp_ in (("tabmax100000", {"min": 1, "max": 100000}, {"min": 1, "max": 1}, False), ("tabmaxu32", {"min": 0, "max": U32M}, None, False),
+                                   ("tabmin70000", {"min": 70000, "max": None}, {"min": 0, "max": 65536}, False), ("tabeq65537", {"min": 65537, "max": 65537}, {"min": 65536, "max": 65536}, False),
+                                   ("imptabmax", {"min": 2, "max": 1 << 20}, {"min": 1, "max": 65536}, True), ("imptabnomax", {"min": 3, "max": None}, {"min": 0, "max": None}, True)):
+        m = {"types": [{"p": [], "r": ["i32"]}], "funcs": [{"type": 0, "locals": [], "body": [["i32.const", b32(1)], ["end"]]}], "exports": [{"name": "f", "kind": "func", "idx": 0}]}
+        if imp_:
+            m["imports"] = [dict({"mod": "env", "name": "t", "kind": "table"}, **tab_)] + ([dict({"mod": "env", "name": "m", "kind": "memory"}, **mem_)] if mem_ else [])
+        else:
+            m["table"] = tab_
+            if mem_:
+                m["memory"] = mem_
+        mods.append(("limits-" + tag_, m))
+    # br_table in code that cannot be reached, with no / one / many targets, whose labels carry results while the operand stack the
+    # translator tracks is empty (everything above the unreachable point is polymorphic)
+    dead = []
+    for killer in (["br", 0], ["return"], ["unreachable"]):
+        for targets in ([], [0], [0, 0, 0]):
+            dead.append({"type": 0, "locals": [], "body": [["block", "i32"], ["i32.const", b32(1)], killer if killer[0] != "return" else ["return"],
+                                                           ["i32.const", b32(0)], ["br_table", targets, 0], ["end"], ["end"]]})
+            dead.append({"type": 0, "locals": [], "body": [["i32.const", b32(2)], killer if killer[0] != "br" else ["return"], ["br_table", targets, 0], ["end"]]})
+            dead.append({"type": 0, "locals": [], "body": [["block", "i32"], ["unreachable"], ["br_table", targets, 0], ["end"], ["end"]]})
+    mods.append(("deadbrtable", {"types": [{"p": [], "r": ["i32"]}], "funcs": dead, "exports": [{"name": "d%d" % k, "kind": "func", "idx": k} for k in range(len(dead))]}))
     # one module with every section kind (the directed module of checks/c08.py), with a name section: swept byte by byte
     src = open(os.path.join(os.path.dirname(os.path.abspath(__file__)), "c08.py")).read().replace("main_wrap(main)", "")
     ns = {"__file__": os.path.join(os.path.dirname(os.path.abspath(__file__)), "c08.py"), "__name__": "borrowed_c08"}
